@@ -164,3 +164,21 @@ func SliceR[S ~[]E, E any](s S, pos string) S {
 	}
 	return s
 }
+
+// ObjW / ObjR wrap the receiver of a method call on an unsynchronised std-lib object
+// (bytes.Buffer, bufio.Reader/Writer) in race-mode builds: the object is one plain location.
+func ObjW[T any](p *T, pos string) *T {
+	if X != nil && X.cfg.Race && p != nil {
+		Accesses++
+		X.access(unsafe.Pointer(p), pos, true)
+	}
+	return p
+}
+
+func ObjR[T any](p *T, pos string) *T {
+	if X != nil && X.cfg.Race && p != nil {
+		Accesses++
+		X.access(unsafe.Pointer(p), pos, false)
+	}
+	return p
+}
